@@ -317,6 +317,70 @@ func (p policy) build0() (accessstructures.Monotone, error) {
 	}
 }
 
+// buildFor constructs ONE PARTY's own access-structure object for the policy: a fresh object from the
+// same data, for a CNF policy with the clause list in the permutation drawn from r (returned as text),
+// for the others with the ID lists shuffled. via == "cnf" converts the object to CNF through
+// cnf.ConvertToCNF (the conversion path every party would run on its own).
+func (p policy) buildFor(r *vh.Rng, via string) (ac accessstructures.Monotone, perm string, err error) {
+	q := p
+	shuffle := func(ids []uint64) []uint64 {
+		out := append([]uint64(nil), ids...)
+		for i := len(out) - 1; i > 0; i-- {
+			j := r.Intn(i + 1)
+			out[i], out[j] = out[j], out[i]
+		}
+		return out
+	}
+	perm = "-"
+	switch p.fam {
+	case 'N':
+		idx := make([]int, len(p.sets))
+		for i := range idx {
+			idx[i] = i
+		}
+		for i := len(idx) - 1; i > 0; i-- {
+			j := r.Intn(i + 1)
+			idx[i], idx[j] = idx[j], idx[i]
+		}
+		q.sets = nil
+		parts := make([]string, len(idx))
+		for k, i := range idx {
+			q.sets = append(q.sets, shuffle(p.sets[i]))
+			parts[k] = strconv.Itoa(i)
+		}
+		perm = strings.Join(parts, ".")
+	case 'T', 'U':
+		q.ids = shuffle(p.ids)
+	}
+	ac, err = q.build()
+	if err != nil || via != "cnf" {
+		return ac, perm, err
+	}
+	var c *cnf.CNF
+	if pn := vh.Safely(func() { c, err = cnf.ConvertToCNF(ac) }); pn != "" {
+		return nil, perm, fmt.Errorf("PANIC %s", pn)
+	}
+	if err != nil {
+		return nil, perm, err
+	}
+	return c, perm + "+cnf", nil
+}
+
+// smallestMemberCNF: CNF policies whose maximal unqualified sets differ only in their smallest member
+// (the all-singleton sets are the CNF of 2-of-n); no holder lies in every set.
+func smallestMemberCNF() []policy {
+	const b = uint64(1) << 40
+	n := func(sets ...[]uint64) policy { return policy{fam: 'N', sets: sets} }
+	return []policy{
+		n([]uint64{1}, []uint64{2}, []uint64{3}),
+		n([]uint64{7}, []uint64{3}, []uint64{42}, []uint64{5}),
+		n([]uint64{1, 9}, []uint64{2, 9}, []uint64{1, 2}),
+		n([]uint64{1, 8, 9}, []uint64{2, 8, 9}, []uint64{1, 2}, []uint64{3, 8, 9}),
+		n([]uint64{b + 1}, []uint64{b + 2}, []uint64{1<<63 + 5}),
+		n([]uint64{b + 1, b + 9}, []uint64{b + 2, b + 9}, []uint64{b + 1, b + 2}),
+	}
+}
+
 // ---- independent brute-force evaluation of the policy (the declared semantics) ----------------
 
 func (t *tree) eval(s map[uint64]bool) bool {
